@@ -199,6 +199,8 @@ def gen_cut(rng, knobs=None):
     mode = k.get('mode', 'tcp')
     frag = k['frag'] if 'frag' in k else rng.choice([None, 64, 100])
     opts = {'mode': mode, 'frag': frag, 'read_buffer': rng.choice([1, 7, 1024]), 'keepalive_ms': 100, 'lifetime_ms': 100000}
+    if rng.random() < k.get('p_drain', 0.2):
+        opts['on_close_drains'] = True       # on_close waits for the calls that were in flight to come back (graceful drain)
     prog = [['start'], ['pump']]
     n = rng.randint(0, 4)
     kinds = []
